@@ -46,6 +46,15 @@ func (c *simCtx) isRecvField(t *T, field string) bool {
 }
 func (c *simCtx) isM(t *T) bool { return c.isRecvField(t, c.a.MField) }
 
+// isCount: the number of warriors: the counter field, or the length of the warrior list
+func (c *simCtx) isCount(t *T) bool {
+	t = stripConv(t)
+	if c.a.CountField != "" && c.isRecvField(t, c.a.CountField) {
+		return true
+	}
+	return t.Op == "len" && c.a.WarriorsField != "" && c.isRecvField(t.A[0], c.a.WarriorsField)
+}
+
 // cell: t is core[idx] (field "") or core[idx].F
 func (c *simCtx) cell(t *T) (idx *T, field string, ok bool) {
 	if t == nil {
